@@ -304,9 +304,9 @@ def cases(tier, seed):
             for b in range(6 if T else 2):
                 add(rec, "vvar", b, 5 if T else 3)
     # generated fonts whose glyph closure needs several rounds (shared nested lookups, producers in later lookups)
-    for k in range(400 if T else 70):
+    for k in range(400 if T else 50):
         out.append({"id": "genfea:%d" % k, "path": "gen:c07_fea/%d" % k, "member": None, "variant": "genfea", "gen": k,
-                    "batch": 0, "n": 6 if T else 4, "seed": seed, "tier": tier, "timeout": CASE_TIMEOUT})
+                    "batch": 0, "n": 6 if T else 3, "seed": seed, "tier": tier, "timeout": CASE_TIMEOUT})
     return out
 
 
